@@ -52,6 +52,17 @@ pub fn classify<D: Dom>(
 ) -> Option<Outcome1> {
     st.executions += 1;
     st.max_steps = st.max_steps.max(run.steps);
+    let bound = alloc_bound(lx.chars.len());
+    st.max_alloc_bytes = st.max_alloc_bytes.max(run.alloc_bytes);
+    st.max_alloc_permille = st.max_alloc_permille.max(run.alloc_count.saturating_mul(1000) / bound);
+    if run.alloc_count > bound && !matches!(run.out, Out::Panic(_) | Out::Budget(_)) {
+        st.budgets += 1;
+        return Some(Outcome1 {
+            kind: Kind::Budget,
+            expected: format!("at most {} allocations for an input of {} characters (8 per step of the bound 4096 + 256 len)", bound, lx.chars.len()),
+            observed: format!("{} allocations, {} bytes", run.alloc_count, run.alloc_bytes),
+        });
+    }
     match &run.out {
         Out::Panic(msg) => {
             st.panics += 1;
